@@ -543,8 +543,10 @@ def judge_c04(r, all_ex, records, phases):
         if ex0['sent'] is not None and resps:
             sent, endkind = ex0['sent']
             ref = rfc7230.decode(sent, endkind == 'fin', 'HEAD' if ex0['method'] == 'HEAD' else 'GET')
-            if ref.complete:
-                msg = sent[:ref.extent]
+            accepted_incomplete = (not ref.complete) and ref.error == 'truncated-trailer' and nok
+            if ref.complete or accepted_incomplete:
+                # a message cut inside the trailer that the client nevertheless accepted must be archived as sent
+                msg = sent[:ref.extent] if ref.complete else sent
                 for rec in resps:
                     if rec.get('WARC-Type') == 'revisit':
                         want = msg[:ref.header_len]
